@@ -38,9 +38,10 @@ CHUNK = 8
 CONTENTS = ['', '1', 'A', 'a', '\xe9', '点', '书', b'', b'\x81', b'\x81\x40', 0, 7, -1, '1' * 7089]
 DOMAINS = [
     ('error', [None, 'L', 'l', 'M', 'm', 'Q', 'q', 'H', 'h', 'x', '', '-']),
-    ('version', [None, 1, '1', '01', 2, 40, '40', 41, 0, -1, 'M1', 'm1', 'M2', 'M3', 'M4', 'm4', 'M5', 'm5', '', 'x']),
+    ('version', [None, 1, '1', '01', 2, 40, '40', 41, 0, -1, 'M1', 'm1', 'M2', 'M3', 'M4', 'm4', 'M5', 'm5', '', 'x',
+                 '0', '-1', '-2', '-3', '-4', '00', '41', 42, -3, -4]),        # (numeric strings / ints that collide with internal constants)
     ('mode', [None, 'numeric', 'alphanumeric', 'byte', 'kanji', 'hanzi', 'NUMERIC', 'Kanji', 'Byte', 'x', '']),
-    ('mask', [None, 0, 3, 4, 7, 8, -1, '2', '7', 'x']),
+    ('mask', [None, 0, 3, 4, 7, 8, -1, '2', '7', 'x', '8', '-1']),
     ('encoding', [None, 'utf-8', 'UTF-8', 'latin1', 'shift_jis', 'ascii', 'foo']),
     ('eci', [False, True]),
     ('micro', [None, True, False]),
@@ -50,7 +51,8 @@ CANON = {'error': {'l': 'L', 'm': 'M', 'q': 'Q', 'h': 'H'},
          'version': {'1': 1, '01': 1, '40': 40, 'm1': 'M1', 'm4': 'M4'},
          'mode': {'NUMERIC': 'numeric', 'Kanji': 'kanji', 'Byte': 'byte'},
          'mask': {'2': 2, '7': 7}}
-INVALID = {'error': {'x', '', '-'}, 'version': {41, 0, -1, 'M5', 'm5', '', 'x'}, 'mode': {'x', ''}, 'mask': {8, -1, 'x'}, 'encoding': {'foo'}}
+INVALID = {'error': {'x', '', '-'}, 'version': {41, 0, -1, 'M5', 'm5', '', 'x', '0', '-1', '-2', '-3', '-4', '00', '41', 42, -3, -4}, 'mode': {'x', ''},
+           'mask': {8, -1, 'x', '8', '-1'}, 'encoding': {'foo'}}
 MICRO_VERS = ('M1', 'M2', 'M3', 'M4')
 ENTRY = {'make': segno.make, 'make_qr': segno.make_qr, 'make_micro': segno.make_micro}
 
@@ -230,6 +232,10 @@ BAD_COLOURS = ['', '#12', '#ggg', 'nope', (1, 2), (256, 0, 0), (0, 0, 0, 2.0), '
                '#1234567', '# 123', '12 3', '#-12', (0, 0), (1.5, 300, 0), '0x123']
 
 
+TWINS = [((10, 20, 30, 128), (10, 20, 30, 128.0)), ((0, 0, 0, 2), (0, 0, 0, 2.0)), ((255, 255, 255, 255), (255, 255, 255, 255.0)), ((0, 0, 0, 255), (0, 0, 0, 255.0)),
+         ((255, 0, 0, 255), (255, 0, 0, 255.0))]
+
+
 def gen_cases(tier):
     q = tier == 'quick'
     k = 2 if q else 3
@@ -301,12 +307,12 @@ def run_case(case, acc):
         raise ValueError(kind)
 
 
-def expect_refusal(acc, case, what, fn, fam):
+def expect_refusal(acc, case, what, fn, fam, known=None):
     try:
         with watchdog():
             fn()
         acc.eval(case, nontrivial=True, outcome='accepted')
-        acc.violation('malformed-accepted/' + fam, '%s was accepted instead of being refused with ValueError' % what, case)
+        acc.violation('malformed-accepted/' + fam, '%s was accepted instead of being refused with ValueError' % what, case, known=known)
     except ValueError:
         acc.eval(case, nontrivial=True, outcome='ValueError')
         acc.count('serializer_refusals')
@@ -337,6 +343,40 @@ def save_case(kind, acc):
             for c in BAD_COLOURS[:4]:
                 expect_refusal(acc, ('save', kind, 'finder_dark', c), 'save(kind=%r, finder_dark=%r)' % (kind, c),
                                lambda: qr.save(out(), kind=kind, finder_dark=c), 'colour/' + kind)
+    if kind in COLOUR_KINDS:
+        # well-formed colours with an alpha channel: painted or - where the format has no alpha - refused with ValueError, nothing else
+        for c in ('#0a141e80', (10, 20, 30, 128), (0, 0, 0, 0.5), '#0008', (255, 255, 255, 1), (200, 210, 220, 0.25)):
+            for kw in ({'dark': c}, {'light': c}, {'dark': c, 'light': None}, {'dark': c, 'light': c}):
+                case = ('save', kind, 'alpha', c, sorted(kw))
+                try:
+                    with watchdog():
+                        qr.save(out(), kind=kind, **kw)
+                    acc.eval(case, nontrivial=True, outcome='written')
+                except ValueError:
+                    acc.eval(case, nontrivial=True, outcome='ValueError')
+                except Exception as e:
+                    acc.eval(case, nontrivial=True, outcome=C.exc_name(e))
+                    acc.violation('escaped/%s/alpha-colour/%s' % (C.exc_name(e), kind), 'save(kind=%r, **%r) raised %s instead of writing the file or refusing with ValueError: %s'
+                                  % (kind, kw, C.exc_name(e), str(e)[:60]), case)
+        # histories: a malformed colour right after (and right before) a well-formed one that compares equal to it (128 == 128.0)
+        for good, bad in TWINS:
+            for which in ('dark', 'light'):
+                try:
+                    qr.save(out(), kind=kind, **{which: good})
+                    accepted = True
+                except ValueError:
+                    accepted = False          # (a kind without alpha channel refuses both)
+                # known finding: black / white with the out-of-range float alpha 255.0 pass the writers' "is black / is white" shortcut
+                kf = 'black-white-float-alpha-255-accepted' if (bad[:3] in ((0, 0, 0), (255, 255, 255)) and type(bad[3]) is float and bad[3] == 255.0
+                                                                 and kind in ('svg', 'eps', 'pdf')) else None
+                expect_refusal(acc, ('save', kind, which, bad, 'after', good), 'save(kind=%r, %s=%r) directly after the same call with %r' % (kind, which, bad, good),
+                               lambda: qr.save(out(), kind=kind, **{which: bad}), 'colour/' + kind, known=kf)
+                if accepted:
+                    try:
+                        qr.save(out(), kind=kind, **{which: good})
+                    except Exception as e:
+                        acc.violation('valid-refused-after-malformed/' + kind, 'save(kind=%r, %s=%r) raised %s after the malformed twin %r was refused'
+                                      % (kind, which, good, C.exc_name(e), bad), ('save', kind))
     # valid calls in every letter case of the kind must work and agree
     ref = None
     for k in (kind, kind.upper(), kind.capitalize()):
